@@ -54,8 +54,10 @@ def sweep(kind, ids, jobs=8):
         errs = [l for l in ls if l.startswith("ANALYSIS-ERROR")]
         return i, prop, rc, pairs, errs
     good = bad = 0
+    rec = {}
     with ThreadPoolExecutor(jobs) as ex:
         for i, prop, rc, pairs, errs in ex.map(one, items):
+            rec[i] = {"property": prop, "exit": rc, "rules": pairs[:4], "errors": errs[:1]}
             if kind == "seeded":
                 v = {1: "DETECTED", 0: "missed", 2: "analysis-error"}.get(rc, f"exit {rc}")
                 ok = rc == 1
@@ -66,6 +68,12 @@ def sweep(kind, ids, jobs=8):
             if not ok or "-v" in sys.argv:
                 print(f"{i}: {prop}:{v} " + " ;; ".join(pairs[:2])[:300] + (" " + errs[0][:200] if errs else ""))
     print(f"{kind}: {good} as expected, {bad} not")
+    if "--record" in sys.argv:
+        # merge into <kind>/sweep.json (outcome of the property's own quick check on a scratch copy with the patch)
+        p = os.path.join(VERIF, kind, "sweep.json")
+        old = json.load(open(p)) if os.path.isfile(p) else {}
+        old.update(rec)
+        json.dump(dict(sorted(old.items())), open(p, "w"), indent=1)
     return 0
 
 
